@@ -286,7 +286,8 @@ ERR_EXPR_POS = [
 ERR_STMT_POS = [
     "for i = @E@; i < 2; i = i + 1 { probe(i) }", "for i = 0; @E@; i = i + 1 { probe(i) }", "for i = 0; i < 2; i = @E@ { probe(i) }",
     "for i = 0; i < 2; i = i + 1 { probe(i)\nx = @E@\nprobe(i) }", "for v in @E@ { probe(v) }", "for v in [1, 2] { probe(v)\nx = @E@ }",
-    "for v in a { for w in [@E@] { probe(w) } }", "if @E@ { probe(1) } else { probe(2) }",
+    "for v in a { for w in [@E@] { probe(w) } }", 'for v in "ab" { probe(v)\nx = @E@ }', 'for v in {"k": 1} { probe(v)\nx = @E@ }', 'for v in "a" { if v { x = @E@ } }',
+    'for v in [1] { for w in "xy" { x = @E@ } }', "if @E@ { probe(1) } else { probe(2) }",
     "if false { probe(1) } elif @E@ { probe(2) } else { probe(3) }", "if true { probe(1) } elif @E@ { probe(2) }",
     "if false { } elif false { } elif @E@ { probe(2) } else { probe(3) }", "if true { x = @E@ } else { probe(3) }",
     "x = @E@", "x = 1\nx += @E@", "x = 1\nx -= @E@", "a[@E@] = 5", "a[0] = @E@", "a[@E@] += 1", "a[0] += @E@", "a[0] /= @E@", 'm["k"][@E@] = 1',
@@ -805,6 +806,7 @@ BCALLS = [
     'cast(k, "int")', 'cast(k, "float")', 'cast(k, "str")', 'cast(k, "bool")', 'cast(k, "string")',
     "set_measurement(k)", "set_measurement(k, true)", "set_measurement(k, false)", 'set_measurement("lit")', 'set_measurement("lit", true)',
     "probe(len(k))", "probe(load_json(k))", "x = load_json(k)\nprobe(x)",
+    'strfmt(k, "100%%")', 'strfmt(k, "n=%d")', 'strfmt(k, "%s")', 'strfmt(k, "%%%d", 5)',
     'strfmt(k, "%s-%d-%v%%", "a", 1, true)', 'strfmt(nk, "[%v]", k)', 'strfmt(k, "plain")', 'strfmt(k, "%v %v", nosuch, 1 + nil)',
     'printf("%s=%d;%v\\n", "a", 1, k)', "printf(k)", 'printf("%v", 1 + nil)', 'printf("")', "printf(fi)",
     "trim(k)", 'trim(k, "ab")', 'trim(k, " \\t")', 'trim(k, "")', "uppercase(k)", 'replace(k, "a+", "X")', 'replace(k, "(", "X")',
